@@ -51,6 +51,10 @@ def run(ctx):
     scenarios += [('finite_difference.LogRule.rule', s) for s in history.cache_scenarios()]
     scenarios += [('core.Derivative', s) for s in args_scenarios()]
     scenarios += [('core.Derivative', s) for s in history.other_point_scenarios('Derivative', None)]
+    scenarios += [('core.Derivative', s) for s in history.aborted_call_scenarios('Derivative', None)]
+    scenarios += [('core.Jacobian', s) for s in history.aborted_call_scenarios('Jacobian', 2)]
+    scenarios += [('core.Hessdiag', s) for s in history.aborted_call_scenarios('Hessdiag', 2)]
+    scenarios += [('core.Hessian', s) for s in history.aborted_call_scenarios('Hessian', 2)]
     scenarios += [('core.Jacobian', s) for s in history.other_point_scenarios('Jacobian', 2)]
     scenarios += [('core.Hessian', s) for s in history.other_point_scenarios('Hessian', 2)]
     for construct, sc in scenarios:
